@@ -19,7 +19,22 @@ there (the same text); in addition:
     independent); everything the body assigns is unavailable after the loop.
   * `l.argmax()`-like methods of a list with a natural-number value: `nat_methods={'argmax': 'argmax'}` — a function parameter
     `argmax : List α → Nat` whose documented behaviour the tie theorem supplies.
-  * `loop_target='<text of the loop target>'` selects the loop for `loop_body=` when its iterable text is not unique."""
+  * `loop_target='<text of the loop target>'` selects the loop for `loop_body=` when its iterable text is not unique.
+  * WHOLE FUNCTIONS AROUND A FOREIGN SEGMENT (the store functions of the MultiNest / PolyChord wrappers):
+      - `ignore_stmts=[regex, …]`: top-level statements whose text matches are left out — statements about values the
+        translation takes as inputs (the sampler's own statistics dictionary); the spec documents each;
+      - `segment=dict(start=<text of the first statement>, stop=<text prefix of the first statement after it>,
+        call=<callname>, args={free local of the callee: (lean name, kind)}, binds=[kinds])`: that statement range is the
+        function registered under <callname> — a `dialect='seq'` spec with the SAME `start_at` / `stop_at` (checked), whose
+        value is the tuple of its `result` locals; they are bound here at the kinds `binds` ('list3' = a list of 2-D
+        arrays).  The callee's free locals are parameters (`args`), its own parameters are passed on by name;
+      - `loops={'range(len(X))' | 'range(n)': <callname>}`: the loop `for n in range(…)` whose ONE ITERATION is the translated
+        function registered under <callname> and whose last statement stores the iteration's record under the key
+        `'lit{}'.format(n)` into a sub-dict that is still empty: the sub-dict is the list of its stores,
+        `List.map (fun n => ("lit" ++ toString n, <iteration> …)) (List.range …)`.  A parameter of the iteration that was
+        declared by an expression text mentioning the loop index (`modes_array[nmode]`,
+        `NEST_stats['modes'][nmode]['mean']`) is that expression AS A FUNCTION OF THE INDEX: `X[n]` for a local list `X` is
+        `List.getD X n []`, any other text is a parameter `Nat → T` applied to `n`."""
 import ast
 import re
 
@@ -36,6 +51,8 @@ class FnObjRec(FnObj):
             # which loop this function is one iteration of (checked by the dict-filling loop rule of the caller)
             self.known_extra['loop_of'] = (spec['module'], spec.get('cls'), spec['func'], spec['loop_body'],
                                            spec.get('loop_target'))
+            # the source text each declared parameter stands for (a range loop lifts those that mention its index)
+            self.known_extra['attr_texts'] = {v[0]: k for k, v in dict(spec.get('attrs', {})).items()}
 
     def enter_loop_body(self, spec, src_lines):
         if not spec.get('loop_target'):
@@ -60,6 +77,8 @@ class FnObjRec(FnObj):
     def lean_ty(self, kind):
         if isinstance(kind, str) and kind.startswith('assoc:'):   # a dict as the list of its (key, value) stores
             return 'List (%s)' % kind[len('assoc:'):]
+        if kind == 'list3':                               # a Python list of 2-D arrays
+            return 'List (List (List α))'
         return super().lean_ty(kind)
 
     def result_type_ext(self, ret, rty):
@@ -84,6 +103,9 @@ class FnObjRec(FnObj):
         if nm is not None:
             self.add_param(nm, 'List α → Nat')
             return '(%s %s)' % (nm, self.lexpr(node.func.value, env))
+        if isinstance(node, ast.Call) and ast.unparse(node.func) == 'len' and len(node.args) == 1 and not node.keywords \
+                and isinstance(node.args[0], ast.Name) and env.get(node.args[0].id) in ('list2', 'list3'):
+            return '(List.length %s)' % self.var(node.args[0].id)
         return super().nat(node, env)
 
     # ------------------------------------------------------------------ records
@@ -216,8 +238,135 @@ class FnObjRec(FnObj):
         return '%slet %s := (List.map (fun it__ => (it__.1, (%s %s))) (List.zipIdx %s))\n' % (
             ind, nm, tgt['lean'], ' '.join(args), src)
 
+    def range_fill_loop(self, s, env, ind):
+        """for n in range(K): …; R[…]['k']['lit{}'.format(n)] = <record>   with the iteration translated as its own function"""
+        it = ast.unparse(s.iter)
+        tgt = self.known.get(self.spec['loops'][it])
+        if tgt is None or tgt.get('loop_of') is None or tgt.get('result_ty') is None:
+            self.fail(s, 'the iteration of this loop is not a translated loop body')
+        mod, cls, func, lb, lt = tgt['loop_of']
+        if (mod, cls, func, lb) != (self.spec['module'], self.spec.get('cls'), self.spec['func'], it) \
+                or (lt is not None and lt != ast.unparse(s.target)):
+            self.fail(s, 'the declared iteration function is not the translation of this loop')
+        if s.orelse or not isinstance(s.target, ast.Name) or len(s.iter.args) != 1 or s.iter.keywords:
+            self.fail(s, 'unsupported dict-filling loop')
+        n = s.target.id
+        if n in env:
+            self.fail(s, 'loop variable shadows a variable')
+        count = self.nat(s.iter.args[0], env)
+        last = s.body[-1] if s.body else None
+        key = last.targets[0].slice if isinstance(last, ast.Assign) and len(last.targets) == 1 \
+            and isinstance(last.targets[0], ast.Subscript) else None
+        if not (isinstance(key, ast.Call) and isinstance(key.func, ast.Attribute) and key.func.attr == 'format'
+                and isinstance(key.func.value, ast.Constant) and isinstance(key.func.value.value, str)
+                and key.func.value.value.count('{}') == 1 and '{' not in key.func.value.value.replace('{}', '')
+                and '}' not in key.func.value.value.replace('{}', '')
+                and len(key.args) == 1 and not key.keywords and isinstance(key.args[0], ast.Name) and key.args[0].id == n):
+            self.fail(s, "the last statement of the loop does not store under the key 'lit{}'.format(loop index)")
+        pre, post = key.func.value.value.split('{}')
+        rp = self.rec_path(last.targets[0].value, env)
+        if rp is None or rp[1] not in self.subdicts.get(rp[0], ()) or self.has_leaf_under(rp[0], rp[1]) \
+                or any('/' in x for x in rp[1]):
+            self.fail(s, 'the loop does not fill an empty sub-dict of a record')
+        assigned = self.assigned(s.body, env)
+        names, kinds = tgt['arg_names'], tgt['arg_kinds']
+        if names[:1] != [n]:
+            self.fail(s, 'the iteration function has another loop variable')
+        args = []
+        for nm_, kd in zip(names, kinds):
+            if nm_ == n:
+                if kd == 'nat':
+                    args.append('n__')
+                elif kd != 'skip':
+                    self.fail(s, 'the loop index is not declared a natural number')
+                continue
+            if nm_ in assigned:
+                self.fail(s, 'variable %s is read by the iteration and assigned in the loop body' % nm_)
+            if kd == 'skip':
+                continue
+            if env.get(nm_) != kd:
+                self.fail(s, 'variable %s does not have the kind the iteration function declares' % nm_)
+            args.append(self.var(nm_))
+        texts = tgt.get('attr_texts', {})
+        for nm_, ty in tgt['extra_params']:
+            text = texts.get(nm_)
+            if text is not None and re.search(r'(?<![\w.])%s(?![\w])' % re.escape(n), text):
+                m = re.fullmatch(r'(\w+)\[%s\]' % re.escape(n), text)
+                if m and env.get(m.group(1)) in ('list2', 'list3') and m.group(1) not in assigned:
+                    args.append('(List.getD %s n__ [])' % self.var(m.group(1)))    # X[n] for a local list of arrays
+                else:                                     # the expression as a function of the loop index
+                    self.add_param(nm_, 'Nat → %s' % (ty if ' ' not in ty else '(%s)' % ty))
+                    args.append('(%s n__)' % nm_)
+                continue
+            if any(n2 == nm_ and a in env for a, (n2, _) in self.attrs.items()):
+                self.fail(s, 'the iteration reads attribute %s, which this function has assigned' % nm_)
+            for _, kd in self.attrs.values():             # abstract object types of the iteration are type parameters here
+                if isinstance(kd, str) and kd.startswith(('objlist:', 'obj:')) \
+                        and re.search(r'(?<!\w)%s(?!\w)' % re.escape(kd.split(':', 1)[1]), ty):
+                    self.lean_ty(kd)
+            self.add_param(nm_, ty)
+            args.append(nm_)
+        for a in assigned:
+            env.pop(a, None)
+        rec, path = rp
+        self.subdicts[rec].discard(path)
+        if self.skipped(path):
+            return ''
+        nm = self.field_var(rec, path)
+        for _, kd in self.attrs.values():
+            if isinstance(kd, str) and kd.startswith(('objlist:', 'obj:')) \
+                    and re.search(r'(?<!\w)%s(?!\w)' % re.escape(kd.split(':', 1)[1]), tgt['result_ty']):
+                self.lean_ty(kd)
+        lit = lambda t: '"%s"' % t.replace('\\', '\\\\').replace('"', '\\"')
+        keytxt = '(%s ++ toString n__%s)' % (lit(pre), (' ++ ' + lit(post)) if post else '')
+        self.records[rec].append(('/'.join(path), 'assoc:String × (%s)' % tgt['result_ty'], nm))
+        return '%slet %s := (List.map (fun n__ => (%s, (%s %s))) (List.range %s))\n' % (
+            ind, nm, keytxt, tgt['lean'], ' '.join(args), count)
+
+    def segment_call(self, s, env, ind, rest, tail):
+        """the statement range declared as `segment`: the value of the translated function registered for it"""
+        seg = self.spec['segment']
+        stops = [j for j, r in enumerate(rest) if ast.unparse(r).startswith(seg['stop'])]
+        tgt = self.known.get(seg['call'])
+        if not stops or tgt is None or tgt.get('segment') is None:
+            self.fail(s, 'segment: the end statement / the translated function of the range was not found')
+        if tgt['segment'][:2] != (seg['start'], seg['stop']):
+            self.fail(s, 'segment: the called function translates another statement range')
+        names = list(tgt['segment'][2])
+        if len(names) != len(seg['binds']):
+            self.fail(s, 'segment: the number of results differs from the declaration')
+        args = []
+        for n, kd in tgt.get('free_locals', {}).items():
+            if n not in seg.get('args', {}):
+                self.fail(s, 'segment: no value declared for the free local %s of the range' % n)
+            nm, k = seg['args'][n]
+            self.add_param(nm, self.lean_ty(k))
+            args.append(nm)
+        for nm, ty in tgt['extra_params']:
+            self.add_param(nm, ty)
+            args.append(nm)
+        out = '%slet seg__ := (%s %s)\n' % (ind, tgt['lean'], ' '.join(args)) if args else \
+            '%slet seg__ := %s\n' % (ind, tgt['lean'])
+        for i, (n, k) in enumerate(zip(names, seg['binds'])):
+            proj = 'seg__' + '.2' * i + ('.1' if i < len(names) - 1 else '')
+            if len(names) == 1:
+                proj = 'seg__'
+            if k != 'skip':
+                out += '%slet %s := %s\n' % (ind, self.var(n), proj)
+                env[n] = k
+        return out + self.block(rest[stops[0]:], env, ind, tail), True
+
     def stmt_ext(self, s, env, ind, rest, tail, inline):
         top = tail is None and not inline
+        if top and any(re.search(rx, ast.unparse(s)) for rx in self.spec.get('ignore_stmts', ())):
+            return '', False
+        if top and self.spec.get('segment') and ast.unparse(s) == self.spec['segment']['start']:
+            return self.segment_call(s, env, ind, rest, tail)
+        if isinstance(s, ast.For) and ast.unparse(s.iter) in self.spec.get('loops', {}) and isinstance(s.iter, ast.Call) \
+                and ast.unparse(s.iter.func) == 'range':
+            if not top:
+                self.fail(s, 'dict-filling loop inside a branch or loop')
+            return self.range_fill_loop(s, env, ind), False
         if isinstance(s, ast.Assign) and len(s.targets) == 1 and isinstance(s.targets[0], ast.Subscript):
             rp = self.rec_path(s.targets[0], env)
             if rp is not None and (len(rp[1]) > 1 or isinstance(s.value, ast.Dict) or rp[1] in self.subdicts.get(rp[0], ())):
